@@ -8,6 +8,7 @@ import (
 	"os"
 	"path"
 	"path/filepath"
+	"sort"
 	"strconv"
 	"strings"
 
@@ -109,6 +110,10 @@ func expandFilenames(globs []string) ([]string, error) {
 	for filename := range uniqFilenames {
 		filenames = append(filenames, filename)
 	}
+	// map iteration order is random; the order of the files decides the order
+	// in which operations are converted (and thereby e.g. the numbering of
+	// import aliases), so it must not vary from run to run
+	sort.Strings(filenames)
 	return filenames, nil
 }
 
